@@ -1,6 +1,6 @@
 CONSTANTS
   Defects = {"cl_missing"}
-  Family = "cache"
+  Family = "cache_small"
   Deep = FALSE
 INIT Init
 NEXT Next
